@@ -28,7 +28,13 @@ CHECKS.update({
  "C07": ("exploration", "Mass execution with a monitor: seeds are the byte serialisations of the TLC-enumerated fault histories (MC_Parser instance errors, whose invariant Total shows the design has a successor for every event in every reading state), the repository's test documents and random documents; byte-level mutations, truncation at every offset, invalid UTF-8, raw bytes, nesting to depth 200; random reader configurations and chunked / small-capacity BufRead; every Ok result rendered with random options; catch_unwind per case, wall-clock limit and exit status per batch.", "TLC-derived seed corpus + mutation-based execution under a panic/abort/hang monitor", "§5 C07"),
  "C12": ("model_checking", "Cli.tla steps one run of the binary in program order; MC_Cli enumerates all input kinds x output kinds x option values (exhaustive) and checks the sentences of C12 in every state; each behaviour is executed with the real binary under strace, observables compared with the prediction (expected bytes = header + library rendering for the options the specification derives) and the system-call sequence validated by CliTrace (output is never opened before the input parsed).", "TLA+ CLI state machine + TLC (exhaustive), replay against the real binary, strace trace validation", "§5 C12"),
 })
-NOTES = {"C07": "Trusted: catch_unwind + process exit status + wall-clock limit as the monitor; nothing is proved about memory safety or termination of the real code.",
+CHECKS.update({
+ "C02": ("translation_validation", "Every generated program is itself the object checked: document sequences (TLC-enumerated histories of MC_Parser and seeded random data-oriented sequences) are parsed by the real code, rendered with the quick-xml preset, written unchanged into a crate (plus a deny_unknown_fields copy and a Debug copy), compiled by rustc and run against each source document; ProgramTrace.tla decides domain membership (DomC02 on a DOM from an independent reader pass), which clause failed and whether the as-coded renderer model explains a compile failure.", "TLC-enumerated + random document sequences, generated programs compiled and executed, judged by a TLA+ trace spec", "§5 C02"),
+ "C13": ("translation_validation", "As C02 with the serde-xml-rs preset, serde_xml_rs::from_str and the domain DomC13; the known defect of the preset ($text vs $value) is recognised through the model (text field present) and listed in known_findings.json.", "TLC-enumerated + random document sequences, generated programs compiled and executed, judged by a TLA+ trace spec", "§5 C13"),
+})
+NOTES = {"C02": "Trusted: rustc, serde_derive, quick-xml 0.37.5 (feature overlapped-lists) as cached; only failures of the real compiler / deserializer are reported.",
+         "C13": "Trusted: rustc, serde_derive, serde-xml-rs 0.6.0 as cached; only failures of the real compiler / deserializer are reported.",
+         "C07": "Trusted: catch_unwind + process exit status + wall-clock limit as the monitor; nothing is proved about memory safety or termination of the real code.",
          "C12": "Trusted: strace, the file-system setup of each fault; permission faults are not exercised (root); clap usage errors out of scope.",
          "C15": "Trusted: TLC, the harness instantiation merge_necessity::<i64>; exhaustive only up to alphabet/length bound (quick 3/3, thorough 4/4), sampled beyond."}
 
